@@ -7,7 +7,7 @@ LEVEL = 'model_checking'
 FUNCS = P.FUNCS
 ASSUMPTIONS = P.ASSUMPTIONS_COMMON
 BOUNDS = {
-    'quick': {'skeletons': 'curated list (43 single-op kinds + 35 topologies, DESIGN 3.0, 7.1, 9) + the first 60 seeded random DAGs of 2-5 operators',
+    'quick': {'skeletons': 'curated list (43 single-op kinds + 35 topologies, DESIGN 3.0, 7.1, 9) + the first 40 seeded random DAGs of 2-5 operators',
               'recipes': '6 shipped' if PROP == 'C08' else
               '6 shipped + fp16 + a16 + per-op selective SRQ8/WO/DRQ + all-but-one',
               'statistics': 'symbolic float32 min<=max per runtime tensor',
